@@ -170,7 +170,7 @@ func execEncW(args []string) string {
 
 // ---- generator
 
-var scalarTags = []proto.Type{proto.TypeBool, proto.TypeInt8, proto.TypeUint8, proto.TypeInt16, proto.TypeUint16, proto.TypeInt32,
+var wScalarTags = []proto.Type{proto.TypeBool, proto.TypeInt8, proto.TypeUint8, proto.TypeInt16, proto.TypeUint16, proto.TypeInt32,
 	proto.TypeUint32, proto.TypeInt64, proto.TypeUint64, proto.TypeFloat32, proto.TypeFloat64, proto.TypeString}
 
 var tagBaseTypes = map[proto.Type][]basetype.BaseType{
@@ -190,7 +190,7 @@ func scalarOf(t proto.Type) proto.Type {
 
 // randWireValue: (tag, marshalled bytes in arch order) of a random value
 func randWireValue(rng *Rng, arch byte, maxElems int) (proto.Type, []byte) {
-	st := scalarTags[rng.Intn(len(scalarTags))]
+	st := wScalarTags[rng.Intn(len(wScalarTags))]
 	es := elemSize[st]
 	if st == proto.TypeString {
 		n := rng.Intn(6)
